@@ -4,7 +4,7 @@ import ast
 from ..absint import Interp, Obj, TOP
 from ..astutil import calls, kwarg, local_defs
 from ..facts import Facts, fact_texts
-from ..model import AnalysisError, src, walk_own
+from ..model import AnalysisError, LostAnchor, src, walk_own
 from ..pipeline import Pipeline
 
 UTIL = 'python_minifier.rename.util'
@@ -189,6 +189,26 @@ def run(model, rep):
             others = [n_ for n_ in ('found', 'text') if n_ in new_of and new_of[n_] != {n_}]
             rep.check(not lost, 'C10.E2E', mi.loc(), '%s given as %s (soft keywords, a builtin name, the underscore)' % (which, spelling), 'every listed name keeps its spelling',
                       'names listed in %s are renamed: %s -- output: %r' % (which, lost, text_[:140]), key=key)
+    # preserved names the module uses but never binds itself (builtins, names that arrive some other way): their bindings are created when names are
+    # resolved, not when they are bound, and they are preserved like any other - no alias, no renaming
+    used_src = ('def handler(event, context):\n    print(event)\n    print(context)\n    show(event)\n    print(len(event), undefined_helper(event))\n    return len(context), undefined_helper(context)\n'
+                'def show(thing):\n    print(thing)\n    print(len(thing), isinstance(thing, str))\n    print(thing, thing, isinstance(thing, bytes))\n'
+                '    print(len(thing), len(thing), isinstance(thing, int), undefined_helper(thing), undefined_helper(thing))\n')
+    aliased_controls = 0
+    for spelling, value in (('list', ['print', 'undefined_helper', 'handler']), ('tuple', ('print', 'undefined_helper', 'handler')), ('the bare string print', 'print')):
+        names_ = list(value) if not isinstance(value, str) else [value]
+        key = 'C10.E2E|unbound names|' + spelling
+        try:
+            text_ = rename_e2e.run_pipeline(model, used_src, rename_locals=True, rename_globals=True, preserve_globals=value)
+        except rename_e2e.MinifyRaises as ex:
+            rep.violation('C10.E2E', mi.loc(), 'preserve_globals=%s (names the module uses but does not bind)' % spelling, '%s: minify fails' % ex, key=key)
+            continue
+        out_names = [n_.id for n_ in ast.walk(ast.parse(text_)) if isinstance(n_, ast.Name)]
+        lost = {n_: (out_names.count(n_), used_src.count(n_ + '(')) for n_ in names_ if n_ != 'handler' and out_names.count(n_) != used_src.count(n_ + '(')}
+        aliased_controls += out_names.count('len') < used_src.count('len(')
+        rep.check(not lost, 'C10.E2E', mi.loc(), 'preserve_globals given as %s: builtin and unbound names the module uses' % spelling, 'every use keeps the preserved spelling (no alias)',
+                  'preserved names that the module only uses are redirected through an alias or renamed: %s (uses in the output, uses in the source) -- output: %r' % (lost, text_[:160]), key=key)
+    rep.sensitive(aliased_controls >= 1, 'the builtin len, which is not preserved, is not aliased in the probe: the rule for preserved builtins cannot see anything')
     # white-box: written against the permission gates and the assignment loop by name; not evaluated when those do not exist under their names
     def guard():
         # ---------------- GUARD: gates pin exactly the preserved names (abstract evaluation)
@@ -206,6 +226,8 @@ def run(model, rep):
             res = I.explore(lambda: I.call_function(fi.qual, [node, True, ['keep']]))
             if any(r[0][0] != 'return' for r in res):
                 raise AnalysisError('UNDECIDED: %s: %s' % (fname, [r[0] for r in res]))
+            if any(not isinstance(x, Obj) for x in pinned):
+                raise LostAnchor('%s reads the bindings of a namespace through an attribute other than node.bindings' % fname)
             names = sorted(x.attrs.get('name') for x in pinned)
             rep.check(names == ['keep'], 'C10.GUARD', fi.loc(), '%s(rename on, preserve=[keep]) pins %s' % (fname, names), 'exactly the preserved name',
                       'with renaming on and preserve=[\'keep\'] the gate pins %s' % names, key='C10.GUARD|enum|' + fname)
